@@ -24,6 +24,7 @@ FEATURE_TEXT = {
     "tab": "col1\tcol2",
     "trailing": "ends with blanks   ",
     "blanks3": "above\n\n\n\n\nbelow",
+    "blanks2": "upper\n\n\nlower",
     "long": "long " + "x" * 110 + " end",
     "backslash": "continued \\\nline",
     "hash": "has # hash and 'quotes' inside",
@@ -91,7 +92,7 @@ def render(case: dict) -> str:
 
 def layout_cases(rep: Report, t: str):
     kinds = '{"triple", "triple_single", "raw_triple", "bytes_triple", "fstring_triple", "docstring", "single", "concat", "comment"}'
-    feats = '{"tab", "trailing", "blanks3", "long", "backslash", "hash", "crlf_escape", "indent8"}'
+    feats = '{"tab", "trailing", "blanks3", "blanks2", "long", "backslash", "hash", "crlf_escape", "indent8"}'
     places = '{"module", "in_def", "after_decorator", "between_imports", "call_arg", "dict_value"}'
     lens, maxf = ("{60, 100}", 2) if t == "quick" else ("{60, 79, 100}", 3)
     cfg = "\n".join(["CONSTANTS", f"  Kinds = {kinds}", f"  Features = {feats}", f"  Places = {places}",
